@@ -148,6 +148,16 @@ class Check(PropertyCheck):
         out3 = sched.run_program(lambda: vm.call(WITNESS_CTX), {"r0": 1}, random.Random(self.seed), cache=False)
         out3["spec"], out3["limits"] = WITNESS_CTX, {"r0": 1}
         runs = [("witness", out), ("witness2", out2), ("witness-ctx", out3)] + [("random", o) for o in getattr(self, "runs", [])]
+        # a call whose RESULT is None / falsy, demanded again from another parent after the first one finished, in an
+        # execution without the backend cache: only the same-execution look-up prevents a second submission (seeded change
+        # C06d: "result is not None" taken for "was cached")
+        for i, payload in enumerate([None, 0, "", (), False]):
+            xn = (f"nv{i}", "leaf", payload, (), None)
+            spec = (f"nr{i}", "seq", 0, (xn, (f"nw{i}", "list", 0, (xn,), None), (f"nu{i}", "list", 1, (xn,), None)), None)
+            for cache in (False, True):
+                o5 = sched.run_program(lambda: vm.call(spec), {"r0": 1}, random.Random(self.seed + i), cache=cache)
+                o5["spec"], o5["limits"] = spec, {"r0": 1}
+                runs.append(("falsy-result-twin", o5))
         # one parent demands the same call again after the first demand has settled (seq of equal calls; catch then bare;
         # failing and succeeding): still one job per expression of that parent (seeded change C07d)
         for i, (kind, leafkind) in enumerate([("seq", "leaf"), ("catchthen", "leaf"), ("catchthen", "raise"), ("seq", "list")]):
